@@ -389,7 +389,7 @@ class Sim(object):
             return
         self.line_count += 1
         fs = self.focus_stall
-        if fs and code.co_name == fs[0] and self.line_rng.random() < fs[1]:
+        if fs and (code.co_name == fs[0] or (type(fs[0]) is not str and code.co_name in fs[0])) and self.line_rng.random() < fs[1]:
             # focused stall: this run singles out one function; a thread executing it is descheduled at some of its lines
             d = fs[2] * self.line_rng.choice((0.1, 0.3, 1.0))
             self.focus_hits += 1         # workloads may bind an action to this moment ("shut down while _replace is between two lines")
